@@ -50,8 +50,11 @@ class BatchedMonitor(taps.Monitor):
     def pre(self, ctx, args, kw):
         t, x = args[0], args[1]
         bs = args[2] if len(args) > 2 else kw.get("batch_size")
-        if id(t) not in TWINS or not isinstance(x, np.ndarray) or x.ndim != 2 or not np.isfinite(x).all():
+        if id(t) not in TWINS or not isinstance(x, np.ndarray) or x.ndim != 2:
             return None
+        from menpo.transform.piecewiseaffine.base import AbstractPWA as _P
+        if not np.isfinite(x).all() and not isinstance(t, _P):
+            return None       # non-finite query points are driven only where "outside the domain" is defined: piecewise-affine maps
         return {"x": x.copy(), "bs": bs}
 
     def post(self, ctx, st, args, kw, r, exc):
@@ -59,7 +62,7 @@ class BatchedMonitor(taps.Monitor):
         t, x = args[0], args[1]
         cls = type(t).__name__
         recipe = TWINS[id(t)][1]
-        if not np.array_equal(x, st["x"]):
+        if not np.array_equal(x, st["x"], equal_nan=x.dtype.kind == "f"):
             ctx.fail("apply_modified_its_input_array", cls=cls)
         twin = recipe()
         t_exc, t_res = None, None
@@ -211,7 +214,7 @@ def w_history(ctx, rng, i):
     for step in range(int(rng.integers(5, 31 if ctx.tier == "thorough" else 16))):
         who = live[rng.integers(0, len(live))]
         ev = ["fresh", "same_object_edited", "near_equal", "other_size", "shape", "on_copy", "repeat_values", "retry_failed",
-              "int_or_f32", "on_shared_edges", "reparameterised", "inverse_taken", "previous_result_edited"][rng.integers(0, 13)]
+              "int_or_f32", "on_shared_edges", "reparameterised", "inverse_taken", "previous_result_edited", "non_finite_points"][rng.integers(0, 14)]
         n = n0
         outside = 0.35 if (is_pwa and rng.random() < 0.35) else 0.0
         if ev == "fresh" or prev is None:
@@ -235,6 +238,13 @@ def w_history(ctx, rng, i):
             live.append(c)
             x = prev.copy()
             who = c
+        elif ev == "non_finite_points":
+            if not is_pwa:
+                continue
+            # nan / inf coordinates are points outside the domain like any other: mixed with inside and finite outside points
+            x = domain_points(rng, who, d, int(rng.integers(4, 12)), 0.35)
+            k = rng.integers(0, len(x), int(rng.integers(1, 3)))
+            x[k, rng.integers(0, 2)] = [np.nan, np.inf, -np.inf][rng.integers(0, 3)]
         elif ev == "inverse_taken":
             # asking for the inverse is a query: afterwards the transform maps the same values to the same results
             try:
@@ -310,9 +320,10 @@ def w_history(ctx, rng, i):
             if x.dtype == float:
                 prev = x
         except TriangleContainmentError:
-            last_failed = np.array(x, dtype=float, copy=True)
+            if np.isfinite(x).all():
+                last_failed = np.array(x, dtype=float, copy=True)
             events.add("failed")
-            if x.dtype == float:
+            if x.dtype == float and np.isfinite(x).all():
                 prev = x
         except (ValueError, TypeError):
             events.add("refused")
